@@ -179,6 +179,16 @@ func (R *Renderer) render(v ssa.Value) string {
 		}
 		return x.Op.String() + R.V(x.X)
 	case *ssa.FieldAddr:
+		if a, ok := x.X.(*ssa.Alloc); ok {
+			// address of a field of a local struct variable: never resolved through stores
+			name := "?"
+			if pt, ok := a.Type().Underlying().(*types.Pointer); ok {
+				if st, ok := pt.Elem().Underlying().(*types.Struct); ok {
+					name = st.Field(x.Field).Name()
+				}
+			}
+			return "&var(" + a.Comment + ")." + name
+		}
 		return "&" + R.fieldOf(x.X, x.Field, x)
 	case *ssa.Field:
 		st := x.X.Type().Underlying().(*types.Struct)
@@ -308,8 +318,16 @@ func (R *Renderer) fieldOf(base ssa.Value, field int, at ssa.Instruction) string
 		}
 	}
 	if a, ok := base.(*ssa.Alloc); ok {
-		if val := reachingStore(a, at); val != nil {
-			return R.V(val) + "." + name
+		if val, whole, ok := reachingFieldStore(a, field, at); ok {
+			if whole {
+				return R.V(val) + "." + name
+			}
+			return R.V(val)
+		}
+		if !allocModifiedPiecewise(a) {
+			if val := reachingStore(a, at); val != nil {
+				return R.V(val) + "." + name
+			}
 		}
 		return "var(" + a.Comment + ")." + name
 	}
@@ -338,6 +356,76 @@ func (R *Renderer) load(x *ssa.UnOp) string {
 		return "^var(" + a.Name() + ")"
 	}
 	return "*" + R.V(x.X)
+}
+
+// reachingFieldStore: the most recent store to the whole local struct or to its field
+// `field`, searched backwards in the block of `at` and up the single-predecessor chain.
+// A call that receives the variable's address ends the search (unknown).
+func reachingFieldStore(a *ssa.Alloc, field int, at ssa.Instruction) (ssa.Value, bool, bool) {
+	if at == nil || at.Block() == nil {
+		return nil, false, false
+	}
+	b := at.Block()
+	idx := instrIndex(at)
+	for hops := 0; hops < 12 && b != nil; hops++ {
+		for i := idx - 1; i >= 0; i-- {
+			switch x := b.Instrs[i].(type) {
+			case *ssa.Store:
+				if x.Addr == ssa.Value(a) {
+					return x.Val, true, true
+				}
+				if fa, ok := x.Addr.(*ssa.FieldAddr); ok && fa.X == ssa.Value(a) && fa.Field == field {
+					return x.Val, false, true
+				}
+			case ssa.CallInstruction:
+				for _, arg := range x.Common().Args {
+					if arg == ssa.Value(a) {
+						return nil, false, false
+					}
+					if fa, ok := arg.(*ssa.FieldAddr); ok && fa.X == ssa.Value(a) {
+						return nil, false, false
+					}
+				}
+			}
+		}
+		if len(b.Preds) != 1 {
+			break
+		}
+		b = b.Preds[0]
+		idx = len(b.Instrs)
+	}
+	return nil, false, false
+}
+
+// allocModifiedPiecewise: the local struct variable has field-level stores, or its address
+// escapes to a call / closure / another variable: its fields cannot be resolved through the
+// last whole-value store.
+func allocModifiedPiecewise(a *ssa.Alloc) bool {
+	for _, r := range *a.Referrers() {
+		switch x := r.(type) {
+		case *ssa.FieldAddr:
+			for _, rr := range *x.Referrers() {
+				switch y := rr.(type) {
+				case *ssa.Store:
+					if y.Addr == x {
+						return true
+					}
+				case *ssa.UnOp, *ssa.FieldAddr, *ssa.IndexAddr:
+				default:
+					_ = y
+					return true // address of a field escapes
+				}
+			}
+		case *ssa.Store:
+			if x.Val == ssa.Value(a) {
+				return true
+			}
+		case *ssa.UnOp, *ssa.DebugRef:
+		default:
+			return true // passed to a call, captured, ...
+		}
+	}
+	return false
 }
 
 // resolveFreeVar: value stored (once) in the captured variable by the parent function.
@@ -447,6 +535,10 @@ func (R *Renderer) counter(p *ssa.Phi) string {
 		conds = append(conds, R.controlOf(a.Block()))
 	}
 	sort.Strings(conds)
+	conds = dedup(conds)
+	if len(conds) == 1 && (conds[0] == "always" || conds[0] == "multi-pred") {
+		return "#i" // plain loop induction variable 0,1,2,...
+	}
 	return "count{" + strings.Join(conds, " ; ") + "}"
 }
 
@@ -638,6 +730,18 @@ func (R *Renderer) side(v ssa.Value) Lin {
 	}
 	return Lin{T: map[string]int64{R.V(v): 1}}
 }
+
+// eqAtom / neAtom build the canonical string of `a == b` / `a != b` over opaque terms.
+func eqAtom(a, b string) string {
+	l := canonEq(Lin{T: map[string]int64{a: 1, b: -1}})
+	return l.String() + " ==0"
+}
+func neAtom(a, b string) string {
+	l := canonEq(Lin{T: map[string]int64{a: 1, b: -1}})
+	return l.String() + " !=0"
+}
+func isNilAtom(a string) string  { return eqAtom(a, "nil") }
+func notNilAtom(a string) string { return neAtom(a, "nil") }
 
 // CondAtom normalises a boolean SSA value into the atom that holds when it is true.
 func (R *Renderer) CondAtom(v ssa.Value) Atom {
